@@ -327,4 +327,9 @@ SILENT = [
            more=[(LF, "                if e.errno == errno.EEXIST:\n", "                code = e.errno\n                if code == errno.EEXIST:\n")]),
     Silent("probe-without-finally", LF, "    l = FilesystemLock(name)\n    result = None\n    try:\n        result = l.lock()\n    finally:\n        if result:\n            l.unlock()\n    return not result",
            "    probe = FilesystemLock(name)\n    got = probe.lock()\n    if got:\n        probe.unlock()\n    return not got"),
+    Silent("contention-in-helper-returning-sentinels", LF,
+           "                            try:\n                                rmlink(self.name)\n                            except OSError as e:\n                                if e.errno == errno.ENOENT:\n                                    # Another process cleaned up the lock.\n                                    # Race them to acquire it in the next\n                                    # iteration through the loop.\n                                    continue\n                                raise\n                            clean = False\n                            continue\n",
+           "                            outcome = self._breakStale()\n                            if outcome is _REMOVED:\n                                clean = False\n                            continue\n",
+           more=[(LF, "    def unlock(self):", "    def _breakStale(self):\n        try:\n            rmlink(self.name)\n        except OSError as e:\n            if e.errno == errno.ENOENT:\n                return _GONE\n            raise\n        return _REMOVED\n\n    def unlock(self):"),
+                 (LF, "class FilesystemLock:\n", "_GONE = object()\n_REMOVED = object()\n\n\nclass FilesystemLock:\n")]),
 ]
